@@ -102,3 +102,62 @@ pub fn admin(vt: &ProgVt, helper: &str, handle_addr: &Addr, admin_set: &str, w: 
         "handle_addr":handle_addr.to_string(),"addr":addr,"funds_set":[],"funds":[],"args":[],"body":{"t":"-"},
         "code_id":"","label":"","admin":admin,"admin_set":admin_set,"salt":""}));
 }
+
+/// The coins of a funds code of the builder model (spec/BuilderOps.tla, FundsOf).
+pub fn builder_funds(code: &str) -> Vec<Coin> {
+    match code {
+        "0" => vec![],
+        "1" => vec![sylvia::cw_std::coin(5, "atom")],
+        _ => vec![sylvia::cw_std::coin(1, "zeta"), sylvia::cw_std::coin(2, "atom")],
+    }
+}
+
+/// The runs of a builder the specification asks for: (target, [(field, value)], fin).
+pub fn builder_runs(runs: &Value) -> Vec<(String, Vec<(String, String)>, String)> {
+    let s = |v: &Value| v.as_str().unwrap_or("").to_string();
+    runs.as_array().map(|a| a.iter().map(|r| {
+        let sets = r["sets"].as_array().map(|x| x.iter().map(|q| (s(&q["f"]), s(&q["v"]))).collect()).unwrap_or_default();
+        (s(&r["target"]), sets, s(&r["fin"]))
+    }).collect()).unwrap_or_default()
+}
+
+pub fn builder_new(vt: &ProgVt, target: &str) {
+    rt::emit(json!({"ev":"BuilderNew","prog":vt.id,"target":target}));
+}
+
+pub fn builder_set(vt: &ProgVt, f: &str, v: &str) {
+    rt::emit(json!({"ev":"BuilderSet","prog":vt.id,"f":f,"v":v}));
+}
+
+/// A builder built `w`: one event with what the message carries.
+pub fn builder_build(vt: &ProgVt, fin: &str, handle_addr: &str, code_id_set: u64, salt_set: &str, w: StdResult<WasmMsg>) {
+    let base = |verdict: &str, kind: &str| json!({"ev":"BuilderBuild","prog":vt.id,"fin":fin,"verdict":verdict,"kind":kind,
+        "handle_addr":handle_addr,"addr":"","funds":[],"label":"","admin":"","salt":"","salt_set":salt_set,
+        "code_id":"","code_id_set":code_id_set.to_string()});
+    let mut e;
+    match w {
+        Ok(WasmMsg::Execute { contract_addr, funds, .. }) => {
+            e = base("ok", "execute");
+            e["addr"] = json!(contract_addr);
+            e["funds"] = funds_json(&funds);
+        }
+        Ok(WasmMsg::Instantiate { code_id, admin, label, funds, .. }) => {
+            e = base("ok", "instantiate");
+            e["code_id"] = json!(code_id.to_string());
+            e["admin"] = json!(admin.unwrap_or_default());
+            e["label"] = json!(label);
+            e["funds"] = funds_json(&funds);
+        }
+        Ok(WasmMsg::Instantiate2 { code_id, admin, label, funds, salt, .. }) => {
+            e = base("ok", "instantiate2");
+            e["code_id"] = json!(code_id.to_string());
+            e["admin"] = json!(admin.unwrap_or_default());
+            e["label"] = json!(label);
+            e["funds"] = funds_json(&funds);
+            e["salt"] = json!(salt.to_base64());
+        }
+        Ok(other) => e = base("wrong_message", format!("{other:?}").split(' ').next().unwrap_or("")),
+        Err(err) => e = base("err", &err.to_string()),
+    }
+    rt::emit(e);
+}
